@@ -101,6 +101,12 @@ def Try(e, ty):
     return Node("try", ty, e=e)                     # e? on Option
 
 
+def Const(name, ty, value):
+    """a constant registered by the host (the extractor library); value = the Rust-side value as a python object:
+    int / bool / ("Some", v) / ("None",) / ("Accept", v) / ("Reject", v)"""
+    return Node("const", ty, name=name, value=value)
+
+
 def StrLit(text):
     return Node("strlit", "String", text=text)
 
@@ -227,6 +233,8 @@ def src(n, ind=1):
         return f"{src(n.e, ind)}?"
     if k == "rawsrc":
         return n.text
+    if k == "const":
+        return n.name
     if k == "strlit":
         return '"' + n.text + '"'
     if k == "fstr":
@@ -635,6 +643,8 @@ class Ref:
                         continue
                 return self.ev(body, env + [scope], depth)
             raise PathCut("non-exhaustive match (generator bug)")
+        if k == "const":
+            return self.const_value(n.ty, n.value)
         if k == "strlit":
             return [n.text] if n.text else []
         if k == "fstr":
@@ -681,6 +691,14 @@ class Ref:
                 return v.payloads[0][0]
             raise ReturnEx(EnumVal(("opt", None), 1, {1: []}))
         raise ValueError(k)
+
+    def const_value(self, ty, v):
+        if isinstance(ty, tuple) and ty[0] in ("opt", "verdict"):
+            names = ["Some", "None"] if ty[0] == "opt" else ["Accept", "Reject"]
+            idx = names.index(v[0])
+            fts = self.variants(ty)[idx][1]
+            return EnumVal(ty, idx, {idx: [self.const_value(fts[0], v[1])] if fts and fts[0] != "unit" else ([None] if fts else [])})
+        return const(ty, v)
 
     def host(self, name, args, n):
         if name in ("emit_str", "pure_str"):
